@@ -174,6 +174,10 @@ func (g *hgen) anns(f *hFld) {
 		if g.r.chance(50) {
 			key = fmt.Sprintf("k%s", f.Name)
 		}
+		if g.side == 1 && k == hkCookie && g.r.chance(60) {
+			// cookie names that are prefixes of each other (and occasionally equal): every SetCookie must add its own line
+			key = []string{"s", "sid", "sid2", "session", "session_id"}[g.r.intn(5)]
+		}
 		f.Anns = append(f.Anns, hAnn{Kind: k, Key: key})
 	}
 }
